@@ -175,10 +175,14 @@ func (wf *Workflow) SetSink(sink *Sink) {
 func (wf *Workflow) IncConcurrentTasks(slots int) {
 	// We must lock so that multiple processes don't end up with partially "filled slots"
 	wf.concurrentTasksMx.Lock()
+	vhook("slots.lock", "n", slots)
 	for i := 0; i < slots; i++ {
+		vhook("slots.dep.begin", "i", i)
 		wf.concurrentTasks <- struct{}{}
+		vhook("slots.dep.done", "i", i, "len", len(wf.concurrentTasks))
 		Debug.Println("Increased concurrent tasks")
 	}
+	vhook("slots.unlock")
 	wf.concurrentTasksMx.Unlock()
 }
 
@@ -186,7 +190,9 @@ func (wf *Workflow) IncConcurrentTasks(slots int) {
 // currently running in the workflow
 func (wf *Workflow) DecConcurrentTasks(slots int) {
 	for i := 0; i < slots; i++ {
+		vhook("slots.rel.begin", "i", i)
 		<-wf.concurrentTasks
+		vhook("slots.rel.done", "i", i)
 		Debug.Println("Decreased concurrent tasks")
 	}
 }
@@ -305,11 +311,13 @@ func (wf *Workflow) RunToProcs(finalProcs ...WorkflowProcess) {
 // runProcs runs a specified set of processes only
 func (wf *Workflow) runProcs(procs map[string]WorkflowProcess) {
 	wf.reconnectDeadEndConnections(procs)
+	vhook("wire.done", "procs", vNames(procs), "wfprocs", vNames(wf.procs), "driver", wf.driver.Name(), "sink", vSinkUps(wf), "max", cap(wf.concurrentTasks))
 
 	if !wf.readyToRun(procs) {
 		wf.Fail("Workflow not ready to run, due to previously reported errors, so exiting.")
 	}
 
+	vhook("run.start")
 	for _, proc := range procs {
 		Debug.Printf(wf.name+": Starting process (%s) in new go-routine", proc.Name())
 		go proc.Run()
@@ -318,6 +326,7 @@ func (wf *Workflow) runProcs(procs map[string]WorkflowProcess) {
 	Debug.Printf("%s: Starting driver process (%s) in main go-routine", wf.name, wf.driver.Name())
 	wf.Auditf("Starting workflow (Writing log to %s)", wf.logFile)
 	wf.driver.Run()
+	vhook("run.return")
 	wf.Auditf("Finished workflow (Log written to %s)", wf.logFile)
 }
 
